@@ -374,6 +374,11 @@ class DataFile:
     else:
       self.max_row_count = max_row_count
 
+    if self.max_row_count < 1:
+      # subtitles are placed relative to the row count (MNR may read as 0)
+      LOGGER.error("Invalid maximum number of rows: %s", self.max_row_count)
+      self.max_row_count = DEFAULT_TELETEXT_ROWS
+
     # p_element for use across cumulative subtitles 
     self.cur_p_element = None
 
